@@ -447,9 +447,11 @@ fn sst_term(it: &mut It, p: &Value, x: &Value, ph: &str, xh: &str) -> Option<(u6
     Some((pcn, format!("(mkSst {} {} {} {})", pc, dchild_term(it, ch), xc, pairs_term(routes_of(it, x)))))
 }
 
+fn has_parent(sys: &Sys, x: &str, p: &str) -> bool { sys.ca(x).ok().map(|c| to_json(&c)["parents"].get(p).is_some()).unwrap_or(false) }
+
 fn do_sync(sys: &Sys, it: &mut It, ph: &str, xh: &str, op: &Value, hist: u64, marks: &mut Marks, out: &Mutex<Out>) -> Result<(), String> {
     // (a CA that removed the parent - end of the scripted history of `g` - has nobody to synchronise with)
-    if ph != "ta" && !sys.ca(xh).ok().map(|c| to_json(&c)["parents"].get(ph).is_some()).unwrap_or(false) { return Err(format!("{xh} has no parent {ph}")) }
+    if ph != "ta" && !has_parent(sys, xh, ph) { return Err(format!("{xh} has no parent {ph}")) }
     if marks.guard { flush_children(sys, it, xh, op, hist, marks, out); }
     let before = snapshot(sys);
     let now = now_s();
@@ -526,6 +528,8 @@ fn settle(sys: &Sys, it: &mut It, op: &Value, hist: u64, marks: &mut Marks, out:
     for (p, x) in PAIRS {
         if let (Some(Some(pc)), Some(Some(xc))) = (snap.get(p), snap.get(x)) {
             let (pj, xj) = (to_json(pc), to_json(xc));
+            // a CA that left this parent (end of the scripted history of `g`) is not a pair that settles (CHeld still looks at it)
+            if xj["parents"].get(p).is_none() { continue }
             if let Some((pcn, t)) = sst_term(it, &pj, &xj, p, x) {
                 pairs.push(format!("({pcn}, {t})"));
                 let ent = pj["children"][x]["resources"].clone();
